@@ -11,7 +11,8 @@ EXTENDS MPText, Json
 
 CONSTANTS N,            \* maximal list length
           Variants,     \* subset of {"rev", "two", "big"}: how list entries are chosen
-          WithFiles     \* TRUE: also render / parse the four embedding files
+          WithFiles,    \* TRUE: also render / parse the four embedding files
+          LongNs        \* lengths of LONG lists whose decision vector is built bit by bit (for tlc -simulate); {} = none
 
 VARIABLES list, ties, phase, w, r
 vars == <<list, ties, phase, w, r>>
@@ -20,9 +21,18 @@ ListOf(n, v) == CASE v = "rev" -> [i \in 1 .. n |-> n - i + 1]     \* n..1
                   [] v = "two" -> [i \in 1 .. n |-> 7 + i]         \* 8, 9, 10, 11, ... (1 and 2 digits)
                   [] v = "big" -> [i \in 1 .. n |-> 97 + i]        \* 98, 99, 100, 101, ... (2 and 3 digits)
 
-Init == \E n \in 0 .. N : \E v \in Variants : \E t \in [1 .. n -> {0, 1}] :
-          /\ list = ListOf(n, v) /\ ties = t
-          /\ phase = "write" /\ w = WInit /\ r = RInit
+Init == \/ \E n \in 0 .. N : \E v \in Variants : \E t \in [1 .. n -> {0, 1}] :
+             /\ list = ListOf(n, v) /\ ties = t
+             /\ phase = "write" /\ w = WInit /\ r = RInit
+        \/ \E n \in LongNs : \E v \in Variants :
+             /\ list = ListOf(n, v) /\ ties = <<>>
+             /\ phase = "build" /\ w = WInit /\ r = RInit
+
+BuildTie ==   \* long lists: one tie decision per step
+    /\ phase = "build"
+    /\ \E bit \in {0, 1} : ties' = Append(ties, bit)
+    /\ phase' = IF Len(ties) + 1 = Len(list) THEN "write" ELSE "build"
+    /\ UNCHANGED <<list, w, r>>
 
 WriterStep == /\ phase = "write" /\ w.i <= Len(list)
               /\ w' = WStep(list, ties, w)
@@ -36,9 +46,20 @@ ReaderStep == /\ phase = "read" /\ r.i <= Len(w.out)
 Finish     == /\ phase = "read" /\ r.i > Len(w.out)
               /\ phase' = "end"
               /\ UNCHANGED <<list, ties, w, r>>
-Next == WriterStep \/ HandOver \/ ReaderStep \/ Finish
+Next == BuildTie \/ WriterStep \/ HandOver \/ ReaderStep \/ Finish
 Spec == Init /\ [][Next]_vars
 
+(* bridge to the unbounded abstract model (spec/unbounded/TiesAbs.tla):    *)
+(* every concrete step is a step of the finite abstraction                   *)
+WriterBridge == [][WriterStep =>
+                     LET last == w.i = Len(list)  tok == w'.out[Len(w'.out)] IN
+                     /\ KindOfToken(tok) = AbsKind(w.inTie, ties[w.i], last)
+                     /\ w'.inTie = AbsWIn(w.inTie, ties[w.i], last)]_vars
+ReaderBridge == [][ReaderStep =>
+                     LET kind == KindOfToken(w.out[r.i]) IN
+                     /\ r'.inTie = AbsRIn(r.inTie, kind)
+                     /\ r'.rank - r.rank = AbsRInc(r.inTie, kind)
+                     /\ r'.rks[Len(r'.rks)] = r.rank]_vars
 -----------------------------------------------------------------------------
 n == Len(list)
 MaxE == IF n = 0 THEN 1 ELSE Max(Rng(list))
